@@ -278,6 +278,39 @@ func (r *walRun) bigHistory() {
 	}
 }
 
+// boundaryHistory: the append position is moved forward (the explicit reset a follower uses) to just
+// below a multiple of the index page capacity (262144 entries), appends land on the LAST slot of an index
+// page, the queue is reopened exactly there, and more appends / reads follow: recovery of the write cursor
+// must read the entry of the last appended sequence from the page that holds it
+func (r *walRun) boundaryHistory() {
+	rng := r.rng
+	const perPage = 1024 * 256
+	j := 1 + rng.Intn(3)
+	s := int64(perPage*(1+rng.Intn(2)) - 1 - j)
+	r.rec.Emit("Op", trace.F{"t": "main", "op": "SetAppended", "s": s})
+	r.noImage = true
+	r.fq.SetAppendedSeq(s)
+	r.noImage = false
+	r.proj(nil)
+	for i := 0; i < j; i++ {
+		r.put(1 + rng.Intn(60))
+	}
+	r.rec.Emit("Down", trace.F{"how": "close"})
+	r.fq.Close()
+	if err := r.open(); err != nil {
+		r.rec.Emit("Error", trace.F{"op": "Reopen", "err": err.Error()})
+		return
+	}
+	r.rec.Emit("Reopen", trace.F{})
+	r.proj(nil)
+	for i := 0; i < 3; i++ {
+		r.put(1 + rng.Intn(60))
+	}
+	for i := 0; i < 10; i++ {
+		r.randomOp(false)
+	}
+}
+
 // recoverImage opens the image after k stores with the real code and records what it finds.
 func recoverImage(rec *trace.Recorder, src *walwrap.World, prefix [][]byte, k int, scratch string, nextID *int, resetFields trace.F) error {
 	dir := filepath.Join(scratch, fmt.Sprintf("img-%d", k))
@@ -316,6 +349,7 @@ func walMain(args []string) int {
 	nops := fs.Int("ops", 40, "operations per history")
 	images := fs.Int("images", 0, "histories whose every store is imaged and recovered")
 	bigs := fs.Int("big", 0, "histories with messages large enough to roll data pages over")
+	bounds := fs.Int("boundary", 0, "histories that reopen the queue on the last slot of an index page")
 	nconc := fs.Int("concurrent", 0, "concurrent-appender histories (gated)")
 	scratch := fs.String("scratch", "", "scratch directory")
 	_ = fs.Parse(args)
@@ -333,13 +367,14 @@ func walMain(args []string) int {
 	sum := &trace.Summary{Module: "WALQueue", Extra: map[string]any{}}
 	nimages, nstores := 0, 0
 	distinct := map[string]bool{}
-	for h := 0; h < *nh+*bigs; h++ {
-		big := h >= *nh
+	for h := 0; h < *nh+*bigs+*bounds; h++ {
+		big := h >= *nh && h < *nh+*bigs
+		boundary := h >= *nh+*bigs
 		root := filepath.Join(*scratch, fmt.Sprintf("h%d", h))
 		w := walwrap.NewWorld(root, rec)
 		restore := w.Install()
 		run := &walRun{w: w, rec: rec, rng: rand.New(rand.NewSource(rng.Int63())), image: h < *images || big}
-		reset := trace.F{"mode": "seq", "h": h, "big": big}
+		reset := trace.F{"mode": "seq", "h": h, "big": big, "boundary": boundary}
 		rec.Reset(reset)
 		rec.Tap = func(b []byte) { run.lines = append(run.lines, append([]byte{}, b...)) }
 		w.OnStore = func(k int) {
@@ -358,6 +393,8 @@ func walMain(args []string) int {
 		}
 		if big {
 			run.bigHistory()
+		} else if boundary {
+			run.boundaryHistory()
 		} else {
 			for i := 0; i < n; i++ {
 				run.randomOp(false)
